@@ -956,6 +956,15 @@ impl Interpreter {
 
         let result = self.run_vm_to_completion(vm);
 
+        // A run that is suspended goes on in step(): the module scope stays installed, and the
+        // run is finished (exports finalised, environment restored) where step() finishes it
+        if let Ok(StepResult::Suspended { .. }) = &result {
+            self.active_module_path = module_path;
+            self.active_saved_env = saved_env;
+            self.active_module_env = module_env;
+            return result;
+        }
+
         // Restore environment and finalize exports if we used a module environment
         if let Some(saved) = saved_env {
             self.env = saved;
